@@ -309,8 +309,54 @@ def rule_pure(ctx: Ctx) -> None:
     ctx.floor("6-pure", n, 10)
 
 
+def rule_derivers_kept(ctx: Ctx) -> None:
+    """Derivers (and constants / exclude) are part of what a sweep enumerates: a method may build its result WITHOUT the
+    receiver's derivers only on paths where the receiver has none, otherwise it must go through generate() (which applies
+    them).  Checked as a guard fact on every `Sweep(..., derivers=None)` built from `self.items`."""
+    from ..flow import guard_facts
+
+    n = 0
+    for cname in ("Sweep", "MultiSweep"):
+        cls = ctx.prog.cls(f"{MOD}.{cname}")
+        for mname, fn in cls.methods.items():
+            cfg = None
+            for c in [c for c in ast.walk(fn.node) if isinstance(c, ast.Call) and dotted(c.func) in ("Sweep", "type(self)", "self.__class__")]:
+                drops = [k for k in c.keywords if k.arg == "derivers" and isinstance(k.value, ast.Constant) and k.value.value is None]
+                from_self = any(norm(a) == "self.items" for a in [*c.args, *[k.value for k in c.keywords]])
+                if not drops or not from_self:
+                    continue
+                n += 1
+                cfg = cfg or ctx.cfg(fn)
+                node = cfg.node_containing(c)
+                facts = guard_facts(cfg, Defs(fn), node) if node is not None else []
+                none_here = any(t == "self.derivers is None" and pol for t, pol in facts) or any(t == "self.derivers" and not pol for t, pol in facts)
+                ctx.add("7-derivers", fn, c, none_here, f"{cname}.{mname} builds a sweep without derivers only where the receiver has none" if none_here else
+                        f"`{norm(c)[:60]}` drops the receiver's derivers on a path where `self.derivers` may be set: the derived (or overwritten) keys keep their un-derived values", key=f"derivers {cname}.{mname}")
+    ctx.floor("7-derivers", n, 1)
+    # a class-level alias of a method freezes the base class's implementation: subclasses that override the method are bypassed
+    m = 0
+    for cls in [c for c in ctx.prog.classes.values() if c.module.name == MOD]:
+        for alias, v in cls.class_assigns.items():
+            if isinstance(v, ast.Name) and v.id in dict.keys(cls.methods):
+                m += 1
+                over = [sc.name for sc in ctx.prog.subclasses(cls.qualname) if v.id in dict.keys(sc.methods) and alias not in dict.keys(sc.methods) and alias not in sc.class_assigns]
+                ctx.add("7-derivers", cls.qualname, cls.loc, not over, f"`{alias} = {v.id}` in {cls.name}: no subclass overrides {v.id}" if not over else
+                        f"`{alias} = {v.id}` in {cls.name} binds {cls.name}.{v.id} itself: {over} override(s) `{v.id}` but `{alias}` still runs the base implementation (iteration of a {over[0]} yields the base class's combinations)", key=f"alias {cls.name}.{alias}")
+    ctx.add("7-derivers", MOD, "", True, f"{m} class-level method alias(es) examined", key="alias-scan")
+    # a getter built from a VARIABLE number of names changes its result kind with that number: itemgetter(*names) returns a bare
+    # value for one name, a tuple for several and raises for none - keys built with it are not uniformly tuples
+    g = 0
+    for fn in ctx.prog.functions_in(MOD):
+        for c in [c for c in ast.walk(fn.node) if isinstance(c, ast.Call) and dotted(c.func).rsplit(".", 1)[-1] in ("itemgetter", "attrgetter")]:
+            g += 1
+            star = [a for a in c.args if isinstance(a, ast.Starred)]
+            ctx.add("7-derivers", fn, c, not star, f"`{norm(c)}` has a fixed number of names" if not star else
+                    f"`{norm(c)}` is built from a variable number of names: with exactly one name it yields bare values instead of 1-tuples (and with none it raises), so the reported keys change shape with the number of root arguments", key=f"getter {fn.name}")
+    ctx.add("7-derivers", MOD, "", True, f"{g} itemgetter/attrgetter call(s) examined", key="getter-scan")
+
+
 def check(ctx: Ctx) -> None:
-    for rule in (rule_all_operands, rule_reads_dims, rule_len_mirror, rule_arms, rule_shape, rule_pure):
+    for rule in (rule_all_operands, rule_reads_dims, rule_len_mirror, rule_arms, rule_shape, rule_pure, rule_derivers_kept):
         ctx.run(rule)
 
 
